@@ -65,6 +65,17 @@ def corpus_cases(ifaces):
             Case('MACRO ' + hx('[AB]:[AB]') + ';' + hx('AB'), macro_oracle, {'decls': ['[AB]:[AB]', 'AB'], 'kind': 'corpus-D9'})]
 
 
+def fresh_cases(tier, rng, ifaces):
+    """thorough tier: the run's fresh collision-free declaration sets were accepted by the real attribute macro (the second
+    harness was built from them); their emitted trees are compared with the model's, and the same sets go through MACRO"""
+    out = []
+    for name, iface in ifaces.items():
+        out.append(Case(f'TREE {name}', None, {'kind': 'TREE-fresh'}))
+        decls = [d.cmd for d in iface.decls]
+        out.append(Case('MACRO ' + ';'.join(hx(d) for d in decls), macro_oracle, {'decls': decls, 'kind': 'MACRO-fresh'}))
+    return out
+
+
 def cases(tier, rng, ifaces):
     out = pair_cases(rng, 4000 if tier == 'quick' else 60000)
     for _ in range(1000 if tier == 'quick' else 20000):
